@@ -16,10 +16,10 @@ MAX_LEN = 4096
 NEST_CAP = 200                      # C16_NEST_CAP of harness/fuzz_C16.cpp
 HANG_IDS = ("nested-attribute-exponential", "macro-mutual-recursion-hang")   # known findings whose replay is a hang
 
-# tier -> (libFuzzer runs in total, jobs, time cap per process [s] or None)
+# tier -> (libFuzzer runs in total, jobs, time cap per process [s] or None, token-mutated kernels)
 TIERS = {
-    "quick": (64000, 16, None),
-    "thorough": (6400000, 16, 5400),
+    "quick": (64000, 16, None, 2000),
+    "thorough": (6400000, 16, 5400, 100000),
 }
 
 RULE = (
@@ -31,9 +31,11 @@ RULE = (
     "clean rejection. Oracle: the process survives (no signal, sanitizer report, std::terminate, foreign exception) and no "
     "input exceeds the unit time-out 3 times in isolation. Even processes start from the seed corpus (every .okl file under "
     "examples/ and tests/files, the kernel strings of tests/src/internal/lang/{modes,parser}/*.cpp whole and as fragments, 30 "
-    "valid kernels of the C20 generator, corpus/C16; each with every translator selector), odd processes from an empty "
-    "corpus; dictionary = OKL keywords, attributes, operators, preprocessor directives. evaluations = executed libFuzzer "
-    "units. Non-trivial = input on which the parser built at least one statement (root.size() > 0) before it accepted or "
+    "valid kernels of the C20 generator, corpus/C16 (valid and deliberately invalid kernels); whole kernels with every translator selector), odd processes from an empty "
+    "corpus; dictionary = OKL keywords, attributes, operators, preprocessor directives. A second, structure-aware stream feeds "
+    "the same target with token-level mutations (delete / duplicate / swap / replace a token, drop a bracket, change or move "
+    "an attribute, truncate, splice) of valid generated kernels (C20 generator) and of the repository's kernels. evaluations = "
+    "executed libFuzzer units + mutated kernels. Non-trivial = input on which the parser built at least one statement (root.size() > 0) before it accepted or "
     "rejected the text; distinct = distinct input bytes (FNV-1a 64). The classes give the accept / reject(errors) / "
     "reject(exception) split per translator and per 'statements parsed' class."
 )
@@ -372,10 +374,10 @@ def run(prop, tier, replay, t0):
         f_hang = [f for f in findings if f.id in HANG_IDS]
         f_bin = [f for f in findings if f.replay.endswith(".bin") and f.id not in HANG_IDS]
         ids = [f.id for f in findings]
-        runs, jobs, cap = TIERS["quick" if tier == "quick" else "thorough"]
+        runs, jobs, cap, nmut = TIERS["quick" if tier == "quick" else "thorough"]
         scale = float(os.environ.get("VERIF_C16_SCALE", "1"))     # development aid (loaded machine); recorded below
         if scale != 1:
-            runs = max(jobs, int(runs * scale))
+            runs, nmut = max(jobs, int(runs * scale)), max(jobs, int(nmut * scale))
             out.notes.append("VERIF_C16_SCALE=%s: run budget scaled (development run, not the registered tier)" % scale)
 
         # 1. saved inputs: regression inputs must pass (known findings are re-run and printed by run_fuzzer)
@@ -393,6 +395,11 @@ def run(prop, tier, replay, t0):
         v_fuzz.run_fuzzer(prop, fzbin, wd, out, runs, MAX_LEN, [seeds], dict_file=_dict(wd), jobs=jobs, thorough_time=cap,
                           findings=f_bin, known_ids=ids, extra_env=env, extra_args=["-detect_leaks=0"])
         out.extra["fuzz"]["seed_corpus"] = src
+        fuzz_execs = out.evaluations
+
+        # 3. structure-aware stream: token-level mutations of valid kernels, same target
+        run_mutants(prop, fzbin, wd, out, mutant_inputs(nmut), env, ",".join(ids))
+        out.extra["libfuzzer_executions"] = fuzz_execs
         for f, job in hang_jobs:
             st, _ = job.result()
             if st != "pass":
@@ -401,7 +408,7 @@ def run(prop, tier, replay, t0):
             else:
                 out.notes.append("known finding %s no longer reproduces (replay finishes within 60 s)" % f.id)
         pool.shutdown()
-        out.extra["engine"] = "libFuzzer (%d processes), seeds derived from VERIF_SEED" % jobs
+        out.extra["engine"] = "libFuzzer (%d processes) + %d token-mutated kernels, seeds derived from VERIF_SEED" % (jobs, nmut)
         return vlib.finish(prop, tier, "exploration", out, RULE, t0, ASSUMPTIONS)
     finally:
         vlib.cleanup(wd)
